@@ -5,6 +5,7 @@
 package verifmodels
 
 import (
+	"time"
 	"crypto/aes"
 	"crypto/cipher"
 	"errors"
@@ -393,3 +394,13 @@ func FmtSprintf(format string, a ...any) string { return "<formatted>" }
 
 //verif:intercept fmt.Sprint
 func FmtSprint(a ...any) string { return "<formatted>" }
+
+// ---------------------------------------------------------------- time
+
+//verif:intercept time.Now
+func TimeNow() time.Time {
+	sec := verifrt.Int64("clock.sec")
+	nsec := verifrt.Int64("clock.nsec")
+	verifrt.Assume(sec >= 0 && sec <= 253402300799 && nsec >= 0 && nsec < 1000000000)
+	return time.Unix(sec, nsec)
+}
